@@ -75,7 +75,7 @@ Lemma rt_hypotheses :
   /\ Forall (fun h : hold_row => exists d, In d rt_dsP /\ snd h = d_sd d) rt_hs
   /\ (forall h d, In h rt_hs -> In d (rt_dsK ++ rt_dsT) -> plain_loss_sell d = true -> within_after (snd h) (d_sd d) = false)
   /\ keep_all rt_dsK = Ok rt_K'
-  /\ Forall spec_nz (rt_K ++ rt_T) /\ Forall sell_pos rt_K
+  /\ Forall spec_nz (rt_K ++ rt_T) /\ Forall sell_pos (rt_K ++ rt_T)
   (* a re-emitted superficial sale, its adjustment as an ordinary row, a later
      superficial sale, a later plain loss *)
   /\ map (fun d => (d_sd d, is_sfl_delta d, plain_loss_sell d)) (rt_dsK ++ rt_dsT)
